@@ -1,1 +1,10 @@
-pub fn dummy(){}
+//! Shared engines for the engine-level checks (see /verif/DESIGN.md §3).
+pub mod ast;
+pub mod canon;
+pub mod cases;
+pub mod engine;
+pub mod qgen;
+pub mod refint;
+pub mod value;
+
+pub use vcommon;
